@@ -138,13 +138,13 @@ PROPS = {
                         variants=1),
                    dict(consts=C(NSet={2, 5, 9, 14}, Heights={1, 2, 3}, NrowSet={1, 2, 3, 5, 9, 17}, Strategies=ALL_STRAT, LevelSet={1, 2},
                                  NewPageSet=NP, PbRowSet=PR, HdrSet={"default", "none", "explicit"}, FootSet=FS3, SrcSet={"none", "para"},
-                                 PlaceSet=PL3, NDataSet={1, 2, 3}, GPosSet={"first", "middle", "last", "split", "rev"}, DivSet=DIVX), simulate=450, variants=3)],
+                                 PlaceSet=PL3, NDataSet={1, 2, 3}, GPosSet={"first", "middle", "last", "split", "rev"}, DivSet=DIVX | {"padkey"}), simulate=450, variants=3)],
             thorough=[dict(consts=C(NSet={0, 1, 2, 3, 4}, Heights={1, 2}, NrowSet={2, 3, 5}, Strategies=ALL_STRAT, LevelSet={1, 2}, NewPageSet=NP,
                                     PbRowSet=PR, HdrSet={"default"}, FootSet={"none"}), variants=1),
                       dict(consts=C(NSet={2, 5, 9, 14, 25, 40, 60}, Heights={1, 2, 3}, NrowSet={1, 2, 3, 5, 9, 17, 30, 50}, Strategies=ALL_STRAT,
                                     LevelSet={1, 2, 3}, NewPageSet=NP, PbRowSet=PR, HdrSet={"default", "none", "explicit", "explicit2"},
                                     FootSet=FS3, SrcSet=FS3, PlaceSet=PL3, NDataSet={1, 2, 3, 5},
-                                    GPosSet={"first", "middle", "last", "split", "rev"}, DivSet=DIVX), simulate=7000, variants=3)]),
+                                    GPosSet={"first", "middle", "last", "split", "rev"}, DivSet=DIVX | {"padkey"}), simulate=7000, variants=3)]),
         opts=_o_c02,
         nontrivial=lambda c, pred: c["n"] >= 1,
     ),
